@@ -83,7 +83,7 @@ def gen_cmp(rnd, n):
 
 
 SHAPES = [([2], [None, 0, -1]), ([5], [None, 0]), ([8], [None, -1]), ([2, 3], [None, 0, 1, -1]),
-          ([3, 4], [None, 0, 1]), ([2, 2, 2], [None, 0, 1, 2, -1])]
+          ([3, 4], [None, 0, 1, -1, -2]), ([2, 2, 2], [None, 0, 1, 2, -1, -2, -3])]
 RED_FNS = ["min", "max", "argmin", "argmax", "sort", "argsort", "ptp"]
 
 
@@ -110,9 +110,57 @@ def gen_red(rnd, n):
                 ii.append(count(rnd, big=big)), ff.append(fraction(rnd))
         ii = [x if abs(x) <= P52 else c for x in ii]
         fn = RED_FNS[j % len(RED_FNS)]
-        out.append({"ev": "red", "fn": fn, "form": "numpy" if rnd.random() < 0.35 else "method",
-                    "axis": rnd.choice(axes),
+        out.append({"ev": "red", "fn": fn, "form": "numpy" if rnd.random() < 0.45 else "method",
+                    "axis": rnd.choice(axes), "axpos": rnd.random() < 0.4,        # axis by position or by keyword
                     "ph": {"i": [hx(x) for x in ii], "f": [hx(x) for x in ff], "im": False, "shape": shape}})
+    return out
+
+
+VIEWS = {1: [{"kind": "head", "n": 3}, {"kind": "tail", "n": 2}, {"kind": "step"}, {"kind": "flat", "a": 1, "b": 4},
+             {"kind": "ravel"}],
+         2: [{"kind": "head", "n": 1}, {"kind": "tail", "n": 1}, {"kind": "flat", "a": 1, "b": 5}, {"kind": "ravel"},
+             {"kind": "T"}, {"kind": "row", "n": 0}, {"kind": "row", "n": 1}, {"kind": "col", "n": 0}, {"kind": "col", "n": 2}],
+         3: [{"kind": "head", "n": 1}, {"kind": "flat", "a": 2, "b": 7}, {"kind": "ravel"}, {"kind": "T"},
+             {"kind": "row", "n": 1}, {"kind": "col", "n": 1}]}
+
+
+def gen_hist(rnd, n):
+    """same-object histories: read / reduce, update in place through a view of
+    the same memory (+=, -= on a slice, reshape, transpose, row, column view),
+    reduce / compare again - judged on the values the array holds then"""
+    out = []
+    for j in range(n):
+        shape, axes = rnd.choice([s for s in SHAPES if s[0] != [2]])
+        size = 1
+        for d in shape:
+            size *= d
+        c = float(rnd.choice([0, 1, 12345, 2 ** 30 + 7, 2 ** 40 + 3, 2 ** 49 + 1, -(2 ** 45) - 5]))
+        f = rnd.choice([0.0, 0.25, -0.3, rnd.uniform(-0.45, 0.45)])
+        ff = [f if rnd.random() < 0.3 else near(rnd, f) for _ in range(size)]      # ties and near-ties only
+        ph = {"i": [hx(c)] * size, "f": [hx(x) for x in ff], "im": False, "shape": shape}
+
+        def red():
+            return {"do": "red", "fn": rnd.choice(RED_FNS), "form": rnd.choice(["method", "numpy"]),
+                    "axis": rnd.choice(axes), "axpos": rnd.random() < 0.3}
+
+        def upd():
+            delta = rnd.choice([2.0 ** 47, 2.0 ** 50, -(2.0 ** 48), 2.0 ** 44 + 1, 1.0, 1e6, 2.0 ** 51 - c])
+            kind = rnd.choice(["pyfloat", "pyint", "npfloat", "cycleq", "phase"])
+            if kind == "phase":
+                o = {"kind": "phase", "i": [hx(delta)], "f": [hx(0.0)], "im": False, "shape": None}
+            else:
+                o = ot(kind, [delta])
+            return {"do": "upd", "view": rnd.choice(VIEWS[len(shape)]), "op": rnd.choice(["add", "add", "sub"]), "ot": o}
+
+        steps = [rnd.choice([red(), {"do": "read", "what": rnd.choice(["value", "cycle", "int", "frac"])}])]
+        for _ in range(rnd.choice([1, 1, 2])):
+            steps.append(upd())
+            steps.append(red())
+            if rnd.random() < 0.3:
+                steps.append({"do": "cmp", "op": rnd.choice(["lt", "le", "eq", "ne", "ge", "gt"]),
+                              "form": rnd.choice([None, "ufunc"]),
+                              "ot": {"kind": "phase", "i": [hx(c)], "f": [hx(f)], "im": False, "shape": None}})
+        out.append({"ev": "hist", "ph": ph, "steps": steps})
     return out
 
 
@@ -133,6 +181,7 @@ def gen_red_directed(rnd):
                     rnd.shuffle(ff)
                 shape, axis = rnd.choice([([6], None), ([6], 0), ([2, 3], 1), ([3, 2], 0)])
                 out.append({"ev": "red", "fn": fn, "form": rnd.choice(["method", "method", "numpy"]), "axis": axis,
+                            "axpos": rnd.random() < 0.3,
                             "ph": {"i": [hx(c)] * 6, "f": [hx(x) for x in ff], "im": False, "shape": shape}})
     return out
 
@@ -235,6 +284,7 @@ def recipes(rnd, scale):
     rc = gen_cmp(rnd, 420 * scale)
     rc += gen_red_directed(rnd)
     rc += gen_red(rnd, 330 * scale)
+    rc += gen_hist(rnd, 90 * scale)
     rc += gen_from_string(rnd, 700 * scale)
     rc += gen_to_string(rnd, 800 * scale)
     rc += gen_roundtrip(rnd, 300 * scale)
